@@ -294,7 +294,7 @@ def d3(ctx, prog):
                 else:
                     ctx.ok('C12-D3', key, f'per-class arrays are indexed by the position `{i}` of each declared class', f.where(loop))
             elif isinstance(loop, ast.For) and isinstance(loop.target, ast.Name) and isinstance(loop.iter, ast.Call) and norm(loop.iter.func) == 'range' \
-                    and len(loop.iter.args) == 1 and is_len_partitions(loop.iter.args[0]):
+                    and len(loop.iter.args) == 1 and is_len_partitions(astutil.expand_locals(loop.iter.args[0], astutil.local_defs(f.node))):
                 n += 1
                 i = loop.target.id
                 # a value read from self.partitions inside the loop must not index a per-class array
